@@ -90,6 +90,16 @@ def _flat(pol, t, out):
     elif t[0] == "op" and t[1] == "||" and not pol:
         _flat(False, t[2][0], out)
         _flat(False, t[2][1], out)
+    elif t[0] == "op" and t[1] in ("&&", "||"):
+        # a negated conjunction / an asserted disjunction: stated in the polarity with fewer negated leaves
+        from .core.norm import _not, _negs
+        nt = _not(t)
+        if _negs(nt) < _negs(t):
+            _flat(not pol, nt, out)
+        else:
+            out.append((pol, t))
+    elif t[0] == "iflet-not":
+        out.append((not pol, ("iflet", t[1], t[2])))
     else:
         out.append((pol, t))
 
